@@ -479,6 +479,15 @@ func (w *hostileRevoWorld) init() {
 			}
 		}
 		w.crlBase = w.crlOthers[0]
+		// base CRLs with every freshest-CRL extension shape of the C18 generator (the fetcher parses that extension before it looks
+		// at the signature)
+		for i, sh := range freshShapes() {
+			spec := CRLSpec{Number: big.NewInt(int64(100 + i)), ThisUpdate: now.Add(-time.Hour), NextUpdate: now.Add(time.Hour)}
+			if raw := sh.der(); raw != nil {
+				spec.FreshestRaw = raw
+			}
+			w.crlOthers = append(w.crlOthers, buildCRL(w.iss[1], spec))
+		}
 	})
 }
 
@@ -700,6 +709,15 @@ func hostileChildMain() {
 				out.Write(b)
 				out.WriteByte('\n')
 				out.Flush()
+				if o.Outcome == "hang" {
+					// the operation is still running somewhere (possibly spinning): nothing after it in this process is worth measuring
+					kb, _ := json.Marshal(kinds)
+					fmt.Fprintf(out, "hashes %s\n", base64.StdEncoding.EncodeToString(hashes))
+					fmt.Fprintf(out, "done %s %d %d %d %d %s\n", target, from, i+1, values, errs, kb)
+					out.Flush()
+					os.RemoveAll(dir)
+					os.Exit(0)
+				}
 			}
 		}
 		kb, _ := json.Marshal(kinds)
@@ -840,9 +858,23 @@ func genC09(r *Runner) {
 	var mu sync.Mutex
 	var findings []hostileFinding
 	var cases []*Case
+	hungTargets := map[string]bool{}
 	runJobs(len(jobs), func(ji int) {
 		job := jobs[ji]
+		mu.Lock()
+		skip := hungTargets[job.target]
+		mu.Unlock()
+		if skip {
+			return
+		}
 		fs, v, e, kinds, crashedAt, tail, hs := runHostileChild(job, seed)
+		for _, f := range fs {
+			if f.Outcome == "hang" {
+				mu.Lock()
+				hungTargets[job.target] = true
+				mu.Unlock()
+			}
+		}
 		mu.Lock()
 		a := aggs[job.target]
 		for k := 0; k+8 <= len(hs); k += 8 {
